@@ -866,14 +866,16 @@ class RpmVersionRange(VersionRange):
     scheme = "rpm"
     version_class = versions.RpmVersion
 
+    # note: ORDER MATTER here: we test startswith(key) for each key in sequence
     vers_by_native_comparators = {
+        # seen in RPM code but never seen in the doc or in the wild so far
+        # (must come before "<" which is a prefix of it)
+        "<>": "!=",
         "=": "=",
         "<=": "<=",
         ">=": ">=",
         "<": "<",
         ">": ">",
-        # seen in RPM code but never seen in the doc or in the wild so far
-        "<>": "!=",
         # seen in a specfile parser code
         "!=": "!=",
         "==": "=",
